@@ -100,7 +100,8 @@ def random_trace(args):
     sock = rng.choice(["127.0.0.1", "127.0.0.1", "198.51.100.7", "0.0.0.0"])
     cfg = {"sock": t2s(sock), "proto": t2s(rng.choice(["http", "http", "https"])), "trusted": [t2s(t) for t in trusted],
            "numeric": [t2s(t) for t in POOL + [sock] if numeric_tag(t)]}
-    real = XhReal(cfg, variant=rng.randrange(16))
+    cfg["variant"] = rng.randrange(16)
+    real = XhReal(cfg, variant=cfg["variant"])
     ev = []
     try:
         for _ in range(rng.choice([1, 2, 3, 4, 6, 8])):
@@ -160,8 +161,14 @@ def replay(ctx, rec):
         print("replay:", "diverges " + framework.jdump(r) if r else "follows the specification")
         return 1 if r else 0
     if "trace" in d:
-        v = ctx.validate("httpm", "Trace_XHeaders", "Trace_XHeaders.cfg", [d["trace"]], sig_fn=_c2s_sig)
-        bad = v[d["trace"]["id"]]
+        t = d["trace"]
+        real = XhReal(t["cfg"], variant=t["cfg"].get("variant", 0))      # re-execute the recorded inputs
+        try:
+            t = {"id": t["id"], "cfg": t["cfg"], "ev": [{"a": e["a"], "args": e["args"], "obs": real.step(e["a"], e["args"])} for e in t["ev"]]}
+        finally:
+            real.close()
+        v = ctx.validate("httpm", "Trace_XHeaders", "Trace_XHeaders.cfg", [t], sig_fn=_c2s_sig)
+        bad = v[t["id"]]
         print("replay:", "rejected at event %d: %s" % (bad["at"], framework.jdump(bad["event"])) if bad else "accepted by the specification")
         return 1 if bad else 0
     print("replay: specification-level counterexample (re-run ./check C32)")
